@@ -3,8 +3,12 @@
    Model: Model/Apply.v over Base/NdApply.v.  An array is (shape, index function); "apply g
    along axis k" is DEFINED pointwise: out[i] = g(lane of the input through i along k)[i_k]
    (NdApply.apply_axis), which is the meaning of numpy.apply_along_axis / method(axis=k,
-   keepdims=True); that numpy implements this definition is established by the correspondence. *)
-From PNC Require Import Base.Util Base.NdApply Model.Apply Proofs.NdApplyProofs Proofs.ApplyProofs.
+   keepdims=True); that numpy implements this definition is established by the correspondence.
+   The same model call impl_apply also denotes (correspondence, Corr/C03.v): the IOAPI wrapper
+   ioapi_base.applyAlongDimensions on the data variables, its VGLVLS recomputation (impl_apply on a
+   (lay, nv) bounds variable) and the string forms reduce_dim(f, 'dim,func') = impl_apply f [(dim, func)],
+   convolve_dim(f, 'dim,mode,w...') = impl_apply f [(dim, FConv mode w)] followed by Corr's fill_var. *)
+From PNC Require Import Base.Util Base.NdApply Model.Apply Proofs.NdApplyProofs Proofs.ApplyProofs Proofs.ApplyIntProofs.
 Require Import QArith Permutation.
 Local Close Scope Q_scope.
 Local Open Scope nat_scope.
@@ -114,6 +118,29 @@ Example C03_mean_not_truncated :
   | Err _ => false
   end = true.
 Proof. vm_compute. split; reflexivity. Qed.
+
+(* (9) Value class of integer variables (numpy keeps an integer dtype exactly for these functions;
+   the dtype itself is checked by the correspondence oracle): an integer-valued lane / variable
+   stays integer-valued under sum, prod, min, max, diff, sub-sampling and convolution with an
+   integer kernel, all ranks, masked or not ... *)
+Theorem C03_integer_lanes_stay_integer : forall fd l,
+  int_preserving fd -> Forall cell_int l -> Forall cell_int (run fd l).
+Proof. exact run_int. Qed.
+Print Assumptions C03_integer_lanes_stay_integer.
+
+Theorem C03_integer_vars_stay_integer : forall f dfs r v,
+  impl_apply f dfs = Ok r -> In v (fvars f) -> arr_int (vdat v) ->
+  (forall d fd, In d (vdims v) -> lookup d dfs = Some fd -> int_preserving fd) ->
+  exists v', In v' (fvars r) /\ vname v' = vname v /\ vdims v' = vdims v /\ arr_int (vdat v').
+Proof. exact integer_vars_stay_integer. Qed.
+Print Assumptions C03_integer_vars_stay_integer.
+
+(* ... whereas mean is fractional in general: the mean of the integers [0,1] is 1/2, which is not
+   an integer (this is why the result variable must take the result's dtype) *)
+Theorem C03_mean_fractional :
+  run RMean [Some (0 # 1)%Q; Some (1 # 1)%Q] = [Some (1 # 2)%Q] /\ ~ q_int (1 # 2)%Q.
+Proof. split; [vm_compute; reflexivity | exact half_not_int]. Qed.
+Print Assumptions C03_mean_fractional.
 
 (* Non-vacuity: a 2x3 float variable (one masked cell) and a variable without the dimension;
    'sum' along the middle... here along axis 1 of A; B untouched; the result is Ok, satisfies the
